@@ -95,10 +95,31 @@ PROPS["C16"] = dict(
                 "spellings, strings, 0-d to 2-d, structured arrays with mixed single-byte/string/sub-array fields.",
     limit_quick=60)
 
+PROPS["C18"] = dict(
+    level="proof", needs_ext=True,
+    technique="contract-based deductive verification over the reals (own VC generator over the Python ast, z3): element formulas, "
+              "loop invariants, searchsorted/argsort contracts; float rounding and N-by-d reductions covered by labelled bounded stand-ins",
+    level_text="cov2cor and cor2cov (element formulas through the double loops, non-positive diagonal / shape errors raised exactly "
+               "when stated), interplin (for every query point and every table segment: inside the segment, or beyond the table on "
+               "the end segments, the result is that segment's straight line; table value at a node), wmedian (index safety, "
+               "termination condition, and at the return: the result is the value at the first sorted position whose cumulative "
+               "weight reaches half the total) and the 1-d wmom (mean, both error estimates, deviation, supplied mean, shape error) "
+               "are verified for all inputs over the reals. sigma_clip, get_stats, N-by-d wmom and the cov/cor round trip are "
+               "compared, bounded and labelled, with direct evaluation of the statement.",
+    level_note="Trusted: esvc, z3; floats are reals (rounding of sums not modelled); numpy sum is an uninterpreted function of the "
+               "array (plus: a sum of non-negative cells is non-negative); wmedian's prefix sums are the spec function psum with "
+               "the assumed axiom that the sum in sorted order equals weights.sum(); products/quotients are uninterpreted in cov2cor "
+               "and interplin (sign rules only), which suffices because the contracts state the same formula; searchsorted/argsort/"
+               "where contracts (nplib catalogue). sigma_clip's loop and get_stats are not under a proved contract.",
+    explanation="Proved: cov2cor, cor2cov, interplin (2 contracts), wmedian, wmom (1-d). Bounded (labelled): wmom N-by-d and all "
+                "option combinations against exactly rounded sums, sigma_clip against an independent evaluation of the statement, "
+                "get_stats consistency, cov->cor->cov round trip.",
+    limit_quick=60)
+
 for _k in range(1, 21):
     PROPS.setdefault("C%02d" % _k, dict(level="other", needs_ext=True, explanation="see DESIGN.md section 8"))
 
 
-CLAIMED = {"C20", "C02", "C05", "C06", "C16"}
+CLAIMED = {"C20", "C02", "C05", "C06", "C16", "C18"}
 NOT_APPLICABLE = {("C%02d" % k): "check not built yet (implementation in progress; plan in DESIGN.md section 8)"
                   for k in range(1, 21) if ("C%02d" % k) not in CLAIMED}
